@@ -128,6 +128,6 @@ int cjet_timer_init(struct cjet_timer *timer, struct eventloop *loop)
 
 void cjet_timer_destroy(struct cjet_timer *timer)
 {
-	timer->ev.loop->remove(timer->ev.loop, &timer->ev);
+	timer->ev.loop->remove(timer->ev.loop->this_ptr, &timer->ev);
 	socket_close(timer->ev.sock);
 }
